@@ -402,7 +402,7 @@ def check_builders(chk, rep, repo):
                                   guards=tuple((_values(g), pl) for g, pl in e.guards if not validation_guard(_raises, g, pl)))
                                   for e in w.events])
     st = [e for e in _nested_index(w.events) if e.kind == "store" and e.target[0] == "idx" and e.target[1][0] == "idx"
-          and e.target[1][1][0] == "alloc"]
+          and e.target[1][1][0] == "alloc" and e.target[2][0] != "slice"]
     ok = False
     detail = "expected distances[i][j] = DISTANCES[distance](data[i], data[j]) for all i, j in range(len(data))"
     if not st:
